@@ -454,3 +454,93 @@ pub fn tdd(args: &Args) {
     write_summary(&dir, "mv-tdd", &out, json!({"rows":cases,"nontrivial":cases}));
 }
 
+
+/// C11: TDD `eval` with many variables (two bits per level packed into words: boundaries at 8 and
+/// 16 levels): f = x_i <op> x_j, three-valued assignments; self-contained events (`mevalw`)
+pub fn tddwide(args: &Args) {
+    let dir = args.get("out", "/verif/out/tmp");
+    let seed = args.num("seed", 1);
+    let thorough = args.get("tier", "quick") == "thorough";
+    let mut out = TraceOut::new(&dir, "mv-tddwide", 4000);
+    let mut rng = Rng::new(seed ^ 0x71d3);
+    let mut cases = 0u64;
+    let sizes: Vec<u32> = if thorough { vec![9, 12, 17, 20, 33, 40] } else { vec![9, 17, 33] };
+    for (si, &n) in sizes.iter().enumerate() {
+        for rotate in [false, true] {
+            out.begin_history();
+            let mref = oxidd::tdd::new_manager(1 << 14, 256, 1);
+            out.emit(json!({"ev":"reset","kind":"tdd","cache":256,"tag":"wide"}));
+            let ok = catch(|| {
+                mref.with_manager_exclusive(|m| {
+                    m.add_vars(n);
+                    if rotate {
+                        let ord: Vec<u32> = (0..n).map(|l| (l + 3) % n).collect();
+                        oxidd_reorder::set_var_order(m, &ord);
+                    }
+                })
+            });
+            if ok.is_err() {
+                out.emit(json!({"ev":"abort","what":"wide setup","signal":0}));
+                continue;
+            }
+            let l2v: Vec<u32> = mref.with_manager_shared(|m| (0..n).map(|l| m.level_to_var(l)).collect());
+            let mut pairs: Vec<(u32, u32)> = vec![(0, n - 1), (n - 1, 0), (0, 1)];
+            for b in [8u32, 16, 32] {
+                if b < n {
+                    pairs.push((l2v[(b - 1) as usize], l2v[b as usize]));
+                    pairs.push((l2v[0], l2v[b as usize]));
+                    pairs.push((l2v[b as usize], l2v[(b - 8) as usize]));
+                }
+            }
+            for _ in 0..(if thorough { 12 } else { 5 }) {
+                pairs.push((rng.below(n as usize) as u32, rng.below(n as usize) as u32));
+            }
+            for (pi, &(i, j)) in pairs.iter().enumerate() {
+                let op = TBIN[(pi + si) % 8];
+                let f = catch(|| {
+                    mref.with_manager_shared(|m| {
+                        let a = TDDFunction::var(m, i)?;
+                        let b = TDDFunction::var(m, j)?;
+                        tdd_bin(op, &a, &b)
+                    })
+                });
+                let Ok(Ok(f)) = f else {
+                    out.emit(json!({"ev":"mevalw","n":n,"op":op,"i":i,"j":j,"res":{"panic":"construction failed"}}));
+                    continue;
+                };
+                for k in 0..(if thorough { 12 } else { 7 }) {
+                    let asg: Vec<u8> = match k {
+                        0 => vec![0; n as usize],
+                        1 => vec![2; n as usize],
+                        2 => vec![1; n as usize],
+                        _ => (0..n).map(|_| rng.below(3) as u8).collect(),
+                    };
+                    cases += 1;
+                    let r = catch(|| {
+                        f.eval((0..n).map(|v| {
+                            (v, match asg[v as usize] {
+                                0 => Some(false),
+                                1 => None,
+                                _ => Some(true),
+                            })
+                        }))
+                    });
+                    match r {
+                        Ok(b) => {
+                            let code = match b {
+                                Some(false) => 0,
+                                None => 1,
+                                Some(true) => 2,
+                            };
+                            out.emit(json!({"ev":"mevalw","n":n,"op":op,"i":i,"j":j,"ai":asg[i as usize],"aj":asg[j as usize],
+                                "res":code,"rot":rotate}))
+                        }
+                        Err(p) => out.emit(json!({"ev":"mevalw","n":n,"op":op,"i":i,"j":j,"res":{"panic":p}})),
+                    }
+                }
+            }
+        }
+    }
+    out.finish();
+    write_summary(&dir, "mv-tddwide", &out, json!({"rows":cases,"nontrivial":cases}));
+}
